@@ -305,6 +305,9 @@ impl Engine for C12 {
             }
         };
         st.add("sim.days", 0);
+        if sc.cal.value_seed % 4 == 0 {
+            st.bump("probe.calendar_around_par_noon_below_1_daily_above_1");
+        }
         if let Some(h) = sc.clock_tz {
             st.bump(if h > 0 { "probe.today_from_system_clock_west_of_utc" } else { "probe.today_from_system_clock_east_of_utc" });
         }
@@ -986,6 +989,7 @@ impl Engine for C12 {
             "probe.app_rows_over_several_files",
             "probe.app_sell_rows",
             "probe.app_runs_with_date_fmt_option",
+            "probe.calendar_around_par_noon_below_1_daily_above_1",
             "probe.today_from_system_clock_west_of_utc",
             "probe.today_from_system_clock_east_of_utc",
             "probe.app_return_of_capital_in_usd_without_rate",
